@@ -197,4 +197,49 @@ theorem latency_count (info : Sid → Info) (c : Nat) (t : String) (l : List Sid
     rw [recCount_cons, ih, latency_of_one, List.countP_cons]
     by_cases hc : (info a).client = c <;> by_cases ht : (info a).task = t <;> simp [hc, ht] <;> omega
 
+/-! ### periodic post-processing -/
+
+theorem wakes_fire_within (w p : Nat) : ∀ (n t : Nat), t < p → p ≤ t + n * w → 1 ≤ (wakes w p n t).2 := by
+  intro n
+  induction n with
+  | zero => intro t h1 h2; omega
+  | succ n ih =>
+    intro t h1 h2
+    simp only [wakes, wake]
+    by_cases h : t + w ≥ p
+    · simp [h]
+    · simp only [h, if_false]
+      have h' : t + w < p := by omega
+      have : p ≤ (t + w) + n * w := by
+        have : (n + 1) * w = n * w + w := by rw [Nat.add_mul]; simp
+        omega
+      have := ih (t + w) h' this
+      simpa using this
+
+theorem wakes_not_before (w p : Nat) : ∀ (n t : Nat), t + n * w < p → (wakes w p n t).2 = 0 ∧ (wakes w p n t).1 = t + n * w := by
+  intro n
+  induction n with
+  | zero => intro t _; simp [wakes]
+  | succ n ih =>
+    intro t h
+    have hmul : (n + 1) * w = n * w + w := by rw [Nat.add_mul]; simp
+    simp only [wakes, wake]
+    have h1 : ¬ (t + w ≥ p) := by omega
+    simp only [h1, if_false]
+    have := ih (t + w) (by omega)
+    constructor
+    · simpa using this.1
+    · rw [this.2]; omega
+
+theorem wakes_timer_lt (w p : Nat) (hp : 0 < p) : ∀ (n t : Nat), t < p → (wakes w p n t).1 < p := by
+  intro n
+  induction n with
+  | zero => intro t h; simpa [wakes] using h
+  | succ n ih =>
+    intro t h
+    simp only [wakes, wake]
+    by_cases h1 : t + w ≥ p
+    · simp only [h1, if_true]; exact ih 0 hp
+    · simp only [h1, if_false]; exact ih (t + w) (by omega)
+
 end Samples
